@@ -19,6 +19,9 @@ MUTATIONS = [
     ("mutation { ... on Mutation { a c d } }", {}),
     ("mutation { ... { b { name } a } }", {}),
     ("mutation ($s: Boolean = true) { a @skip(if: $s) b { name } d }", {}),
+    # the meta field among the root fields: one more response key at ITS place in document order
+    ("mutation { a(n: 1) __typename b { name __typename } t: __typename d }", {}),
+    ("mutation { b { name } kind: __typename }", {}),
 ]
 DEFERRED = [
     [("Mutation", "a"), ("Mutation", "b"), ("Mutation", "c"), ("Mutation", "d")],
@@ -61,6 +64,9 @@ def _chunk(args):
             continue
         top = [k for k, _v in exp[1][1]]
         paths = [p for p, _pt, _fn, _t in exp[3].visited]
+        # (meta fields are answered by the library itself, not by a resolver of the world: the serial contract speaks of resolver invocations; their place in
+        #  the response is judged by the comparison with the reference)
+        top = [k for k in top if any(p_[0] == k for p_ in paths)]
         w = {"query": query, "world": wname, "deferred": [".".join(x) for x in dset]}
         for cfg, asyn in (("blocking-executor", False), ("executor-blocking", False), ("executor-threadpool", False), ("executor-asyncio", True)):
             prefix, runs = [], 0
